@@ -4,9 +4,11 @@
    AegeanTools/angle_tools.py on every run.  Lemmas: Lib/Sphere.v, Proofs/SphereProofs.v,
    Proofs/SexagesimalProofs.v.
 
-   NOT a theorem (decided by execution in tools/harness/c17.py): "agrees with an independent vector
-   formula to 1e-9 deg near the antipode" - a statement about binary64 conditioning of the
-   haversine form.  Over R the agreement is exact (C17_gcd_vector). *)
+   NOT a theorem (decided by execution in tools/harness/c17.py, strictly over 0..180 deg): "agrees with an
+   independent vector formula to 1e-9 deg" in binary64 - a statement about round-off.  Over R the agreement
+   is exact (C17_gcd_vector, C17_gcd_cross_form); gcd is the atan2 form atan2 |u x v| (u.v), which is well
+   conditioned at both ends (the earlier haversine form lost 1e-6 deg next to the antipode; over R it is the
+   same function: C17_gcd_haversine_form). *)
 From Coq Require Import Reals ZArith Lra String PrimFloat.
 From Aegean Require Import Lib.RBase Gen.Sphere Lib.Sphere Proofs.SphereProofs.
 From Aegean Require Import Gen.Sexagesimal Model.Sexagesimal Proofs.SexagesimalProofs Proofs.SexagesimalFloat.
@@ -24,12 +26,23 @@ Proof. exact gcd_range. Qed.
 Theorem C17_gcd_zero_iff : forall ra1 dec1 ra2 dec2,
   gcd ra1 dec1 ra2 dec2 = 0 <-> uvec ra1 dec1 = uvec ra2 dec2.
 Proof. exact gcd_zero_iff. Qed.
-(* agreement with the vector formula: the haversine distance IS the angle between the unit vectors *)
+(* agreement with the vector formula: the great-circle distance IS the angle between the unit vectors *)
 Theorem C17_gcd_vector : forall ra1 dec1 ra2 dec2,
   cos (rad (gcd ra1 dec1 ra2 dec2)) = dot (uvec ra1 dec1) (uvec ra2 dec2) /\
   gcd ra1 dec1 ra2 dec2 = deg (acos (dot (uvec ra1 dec1) (uvec ra2 dec2))).
 Proof. exact c17_gcd_vector. Qed.
-(* metric: triangle inequality - full statement on the generated haversine gcd (the bridge from the
+(* the generated text itself, in vector terms: atan2 of the length of the cross product and the dot product (the
+   formula the harness evaluates in 80-bit arithmetic as the independent reference) *)
+Theorem C17_gcd_cross_form : forall ra1 dec1 ra2 dec2,
+  gcd ra1 dec1 ra2 dec2 =
+  deg (atan2 (norm (cross (uvec ra1 dec1) (uvec ra2 dec2))) (dot (uvec ra1 dec1) (uvec ra2 dec2))).
+Proof. exact gcd_cross. Qed.
+(* the haversine formula gives the same real number (a lemma about the vector form since the repair of gcd) *)
+Theorem C17_gcd_haversine_form : forall ra1 dec1 ra2 dec2,
+  gcd ra1 dec1 ra2 dec2 = deg (2 * asin (Rmin 1 (R_sqrt.sqrt (hav ra1 dec1 ra2 dec2)))) /\
+  hav ra1 dec1 ra2 dec2 = (1 - dot (uvec ra1 dec1) (uvec ra2 dec2)) / 2.
+Proof. exact c17_gcd_haversine. Qed.
+(* metric: triangle inequality - full statement on the generated gcd (the bridge from the
    vector-angle form closes, so no _partial) *)
 Theorem C17_triangle : forall ra1 dec1 ra2 dec2 ra3 dec3,
   gcd ra1 dec1 ra3 dec3 <= gcd ra1 dec1 ra2 dec2 + gcd ra2 dec2 ra3 dec3.
@@ -140,6 +153,8 @@ Proof.
 Qed.
 
 Print Assumptions C17_gcd_sym.
+Print Assumptions C17_gcd_cross_form.
+Print Assumptions C17_gcd_haversine_form.
 Print Assumptions C17_triangle.
 Print Assumptions C17_translate.
 Print Assumptions C17_fields_in_range.
